@@ -86,6 +86,11 @@ SHORT_CONFIGS = [
     (None, "aab", [], "ab"),
     (None, '""x', [], '"xa'),
     (None, None, ["\n\nU"], "\nUa"),
+    # several stop sequences: the cut is at the one that occurs FIRST IN THE TEXT, whatever their order in the list
+    (None, None, ["b", "a"], "abc"),
+    (None, '"', ["X", "\n"], '"aX\n'),
+    (None, None, ["\nU", "\nB"], "\nUBa"),
+    ('  "', '"', ["XY", '"\n'], '"\nXYa'),
 ]
 LONG_CONFIGS = [
     ('Bot message: "', '"', []),
